@@ -140,18 +140,6 @@ class InterSystemRecurrenceNetwork(InteractingNetworks):
             self.silence_level = silence_level
             """The inverse level of verbosity of the object."""
 
-            #  Get number of nodes in subnetwork x
-            self.N_x = self.x.shape[0]
-            """Number of nodes in subnetwork x."""
-
-            #  Get number of nodes in subnetwork y
-            self.N_y = self.y.shape[0]
-            """Number of nodes in subnetwork y."""
-
-            #  Get total number of nodes of ISRN
-            self.N = self.N_x + self.N_y
-            """Total number of nodes of ISRN."""
-
             #  Store type of metric
             self.metric = metric
             """The metric used for measuring distances in phase space."""
@@ -173,6 +161,18 @@ class InterSystemRecurrenceNetwork(InteractingNetworks):
             else:
                 self.x_embedded = self.x
                 self.y_embedded = self.y
+
+            #  Get number of nodes in subnetwork x
+            self.N_x = self.x_embedded.shape[0]
+            """Number of nodes in subnetwork x."""
+
+            #  Get number of nodes in subnetwork y
+            self.N_y = self.y_embedded.shape[0]
+            """Number of nodes in subnetwork y."""
+
+            #  Get total number of nodes of ISRN
+            self.N = self.N_x + self.N_y
+            """Total number of nodes of ISRN."""
 
             #  Get threshold or recurrence rate from **kwds, construct
             #  ISRN accordingly
